@@ -647,7 +647,13 @@ func (s *SpecValidator) validateParameters() *Result {
 	rexGarbledPathSegment := mustCompileRegexp(`.*[{}\s]+.*`)
 	for method, pi := range s.expandedAnalyzer().Operations() {
 		methodPaths := make(map[string]map[string]string)
-		for path, op := range pi {
+		paths := make([]string, 0, len(pi))
+		for path := range pi {
+			paths = append(paths, path)
+		}
+		sort.Strings(paths) // which of several overlapping paths is reported must not depend on map order
+		for _, path := range paths {
+			op := pi[path]
 			if s.Options.StrictPathParamUniqueness {
 				pathToAdd := pathHelp.stripParametersInPath(path)
 
